@@ -2,12 +2,18 @@
 // group elements k*G and on arbitrary well-sized byte strings and prints the cases for the Coq
 // model (Model/C04.v).  Points cross the boundary as their marshalled affine coordinates.
 //
+// Decoding is a function of the bytes: every case keeps its buffers and uses them AGAIN (the same
+// slice is decoded three times and compared with a copy taken before the first call; the decoded
+// point is compressed again; the point given to Compress and the message given to G1HashToPoint
+// are compared with their copies), see Model/C04.v ucase / reuse_ok.
+//
 // Decompression of arbitrary bytes runs in a goroutine under a watchdog only so that the driver
 // itself cannot hang: a call that takes microseconds of CPU is reported as Hang only after it
 // failed to return within 20 s and again within 60 s.
 package main
 
 import (
+	"bytes"
 	"crypto/sha256"
 	"encoding/hex"
 	"errors"
@@ -132,7 +138,7 @@ var errNilPoint = errors.New("nil point")
 // hashCall runs the real G1HashToPoint; a nil result is the observable "nil", a panic "panic".
 func hashCall(b []byte) result {
 	r := guarded(func() ([]byte, error) {
-		p := altbn128.G1HashToPoint(append([]byte{}, b...))
+		p := altbn128.G1HashToPoint(b)
 		if p == nil {
 			return nil, errNilPoint
 		}
@@ -154,76 +160,170 @@ func run(in input, em *lib.Emitter, id string) {
 		k, _ := new(big.Int).SetString(in.Scalar, 10)
 		g := new(bn256.G1).ScalarBaseMult(k)
 		m := g.Marshal()
-		c := guarded(func() ([]byte, error) { return altbn128.G1Point{G1: g}.Compress(), nil })
-		d := result{kind: "panic"}
-		if c.kind == "ok" {
-			d = guarded(func() ([]byte, error) {
-				p, err := altbn128.DecompressToG1(c.bytes)
+		// buf is THE buffer: it holds what Compress returned and is decoded three times; snap is
+		// the copy taken right after Compress, before any decode
+		var buf, snap []byte
+		c := guarded(func() ([]byte, error) {
+			buf = altbn128.G1Point{G1: g}.Compress()
+			snap = append([]byte{}, buf...)
+			return snap, nil
+		})
+		dec := func(b []byte) result {
+			return guarded(func() ([]byte, error) {
+				p, err := altbn128.DecompressToG1(b)
 				if err != nil {
 					return nil, err
 				}
 				return p.Marshal(), nil
 			})
 		}
-		coq = fmt.Sprintf("(CRound1 %s %s %s)", point1Term(m), cresTerm(c), res1Term(d))
+		d, d2, d3 := result{kind: "panic"}, result{kind: "panic"}, result{kind: "panic"}
+		recomp := "None"
+		if c.kind == "ok" {
+			d, d2, d3 = dec(buf), dec(buf), dec(buf)
+			if d.kind == "ok" {
+				recomp = "(Some " + cresTerm(guarded(func() ([]byte, error) {
+					p, err := altbn128.DecompressToG1(append([]byte{}, snap...))
+					if err != nil {
+						return nil, err
+					}
+					return altbn128.G1Point{G1: p}.Compress(), nil
+				})) + ")"
+			}
+		}
+		after := result{kind: c.kind, bytes: buf}
+		coq = fmt.Sprintf("(URound1 %s %s %s %s %s %s %s %s)", point1Term(m), cresTerm(c), res1Term(d), res1Term(d2),
+			res1Term(d3), cresTerm(after), point1Term(g.Marshal()), recomp)
 		sig["identity"] = allZero(m)
 		nontrivial = !allZero(m)
-		out["compress"], out["decompress"] = c.kind, d.kind
+		out["compress"], out["decompress"], out["second"], out["third"] = c.kind, d.kind, d2.kind, d3.kind
+		out["sameResultAgain"] = bytes.Equal(d.bytes, d2.bytes) && bytes.Equal(d.bytes, d3.bytes) && d.kind == d2.kind && d.kind == d3.kind
+		out["bufferUnchanged"] = bytes.Equal(buf, snap)
+		if len(snap) > 0 {
+			em.Tally(fmt.Sprintf("round1-flag-%d", snap[0]>>7))
+		}
 		em.Tally("round1-" + d.kind)
 	case "round2":
 		k, _ := new(big.Int).SetString(in.Scalar, 10)
 		g := new(bn256.G2).ScalarBaseMult(k)
 		m := g.Marshal()
-		c := guarded(func() ([]byte, error) { return altbn128.G2Point{G2: g}.Compress(), nil })
-		d := result{kind: "panic"}
-		if c.kind == "ok" {
-			d = guarded(func() ([]byte, error) {
-				p, err := altbn128.DecompressToG2(c.bytes)
+		var buf, snap []byte
+		c := guarded(func() ([]byte, error) {
+			buf = altbn128.G2Point{G2: g}.Compress()
+			snap = append([]byte{}, buf...)
+			return snap, nil
+		})
+		dec := func(b []byte) result {
+			return guarded(func() ([]byte, error) {
+				p, err := altbn128.DecompressToG2(b)
 				if err != nil {
 					return nil, err
 				}
 				return p.Marshal(), nil
 			})
 		}
-		coq = fmt.Sprintf("(CRound2 %s %s %s)", point2Term(m), cresTerm(c), res2Term(d))
+		d, d2, d3 := result{kind: "panic"}, result{kind: "panic"}, result{kind: "panic"}
+		recomp := "None"
+		if c.kind == "ok" {
+			d, d2, d3 = dec(buf), dec(buf), dec(buf)
+			if d.kind == "ok" {
+				recomp = "(Some " + cresTerm(guarded(func() ([]byte, error) {
+					p, err := altbn128.DecompressToG2(append([]byte{}, snap...))
+					if err != nil {
+						return nil, err
+					}
+					return altbn128.G2Point{G2: p}.Compress(), nil
+				})) + ")"
+			}
+		}
+		after := result{kind: c.kind, bytes: buf}
+		coq = fmt.Sprintf("(URound2 %s %s %s %s %s %s %s %s)", point2Term(m), cresTerm(c), res2Term(d), res2Term(d2),
+			res2Term(d3), cresTerm(after), point2Term(g.Marshal()), recomp)
 		sig["identity"] = allZero(m)
 		nontrivial = !allZero(m)
-		out["compress"], out["decompress"] = c.kind, d.kind
+		out["compress"], out["decompress"], out["second"], out["third"] = c.kind, d.kind, d2.kind, d3.kind
+		out["sameResultAgain"] = bytes.Equal(d.bytes, d2.bytes) && bytes.Equal(d.bytes, d3.bytes) && d.kind == d2.kind && d.kind == d3.kind
+		out["bufferUnchanged"] = bytes.Equal(buf, snap)
+		if len(snap) > 0 {
+			em.Tally(fmt.Sprintf("round2-flag-%d", snap[0]>>7))
+		}
 		em.Tally("round2-" + d.kind)
 	case "dec1":
 		b, _ := hex.DecodeString(in.Bytes)
-		d := guarded(func() ([]byte, error) {
-			p, err := altbn128.DecompressToG1(append([]byte{}, b...))
-			if err != nil {
-				return nil, err
-			}
-			return p.Marshal(), nil
-		})
-		coq = fmt.Sprintf("(CDec1 %s %s)", lib.Bytes(b), res1Term(d))
-		out["decompress"] = d.kind
-		nontrivial = !allZero(b)
-		em.Tally("dec1-" + d.kind)
-	case "dec2":
-		b, _ := hex.DecodeString(in.Bytes)
-		d := result{kind: "hang"}
-		if !hung { // after one confirmed hang do not start more spinning goroutines
-			d = guarded(func() ([]byte, error) {
-				p, err := altbn128.DecompressToG2(append([]byte{}, b...))
+		// buf is THE input buffer, decoded three times; b stays the copy taken before
+		buf := append([]byte{}, b...)
+		dec := func() result {
+			return guarded(func() ([]byte, error) {
+				p, err := altbn128.DecompressToG1(buf)
 				if err != nil {
 					return nil, err
 				}
 				return p.Marshal(), nil
 			})
+		}
+		d, d2, d3 := dec(), dec(), dec()
+		recomp := "None"
+		if d.kind == "ok" {
+			recomp = "(Some " + cresTerm(guarded(func() ([]byte, error) {
+				p, err := altbn128.DecompressToG1(append([]byte{}, b...))
+				if err != nil {
+					return nil, err
+				}
+				return altbn128.G1Point{G1: p}.Compress(), nil
+			})) + ")"
+		}
+		coq = fmt.Sprintf("(UDec1 %s %s %s %s %s %s)", lib.Bytes(b), res1Term(d), res1Term(d2), res1Term(d3), lib.Bytes(buf), recomp)
+		out["decompress"], out["second"], out["third"] = d.kind, d2.kind, d3.kind
+		out["sameResultAgain"] = bytes.Equal(d.bytes, d2.bytes) && bytes.Equal(d.bytes, d3.bytes) && d.kind == d2.kind && d.kind == d3.kind
+		out["bufferUnchanged"] = bytes.Equal(buf, b)
+		nontrivial = !allZero(b)
+		em.Tally("dec1-" + d.kind)
+		if len(b) > 0 && d.kind == "ok" {
+			em.Tally(fmt.Sprintf("dec1-ok-flag-%d", b[0]>>7))
+		}
+	case "dec2":
+		b, _ := hex.DecodeString(in.Bytes)
+		buf := append([]byte{}, b...)
+		d := result{kind: "hang"}
+		d2, d3 := d, d
+		recomp := "None"
+		if !hung { // after one confirmed hang do not start more spinning goroutines
+			dec := func() result {
+				return guarded(func() ([]byte, error) {
+					p, err := altbn128.DecompressToG2(buf)
+					if err != nil {
+						return nil, err
+					}
+					return p.Marshal(), nil
+				})
+			}
+			d = dec()
 			if d.kind == "hang" {
 				hung = true
+			} else {
+				d2, d3 = dec(), dec()
+			}
+			if d.kind == "ok" {
+				recomp = "(Some " + cresTerm(guarded(func() ([]byte, error) {
+					p, err := altbn128.DecompressToG2(append([]byte{}, b...))
+					if err != nil {
+						return nil, err
+					}
+					return altbn128.G2Point{G2: p}.Compress(), nil
+				})) + ")"
 			}
 		} else {
 			return
 		}
-		coq = fmt.Sprintf("(CDec2 %s %s)", lib.Bytes(b), res2Term(d))
-		out["decompress"] = d.kind
+		coq = fmt.Sprintf("(UDec2 %s %s %s %s %s %s)", lib.Bytes(b), res2Term(d), res2Term(d2), res2Term(d3), lib.Bytes(buf), recomp)
+		out["decompress"], out["second"], out["third"] = d.kind, d2.kind, d3.kind
+		out["sameResultAgain"] = bytes.Equal(d.bytes, d2.bytes) && bytes.Equal(d.bytes, d3.bytes) && d.kind == d2.kind && d.kind == d3.kind
+		out["bufferUnchanged"] = bytes.Equal(buf, b)
 		nontrivial = !allZero(b)
 		em.Tally("dec2-" + d.kind)
+		if len(b) > 0 && d.kind == "ok" {
+			em.Tally(fmt.Sprintf("dec2-ok-flag-%d", b[0]>>7))
+		}
 	case "hash", "hashrun":
 		// hashrun: a message ground for a long try-and-increment run (search.go); the number of
 		// increments is computed here with Jacobi symbols, independently of the implementation,
@@ -231,12 +331,17 @@ func run(in input, em *lib.Emitter, id string) {
 		b, _ := hex.DecodeString(in.Bytes)
 		h := sha256.Sum256(b)
 		incs := runLengthOf(b)
-		p1, p2 := hashCall(b), hashCall(b)
+		// msg is THE message slice, handed to both calls (with spare capacity, so that an append
+		// inside the callee would write into it)
+		msg := append(make([]byte, 0, len(b)+40), b...)
+		p1, p2 := hashCall(msg), hashCall(msg)
+		kept := bytes.Equal(msg, b) && bytes.Equal(msg[:cap(msg)][len(b):], make([]byte, cap(msg)-len(b)))
+		out["messageUnchanged"] = kept
 		if in.Kind == "hash" {
-			coq = fmt.Sprintf("(CHash %s %s %s)", zOf(h[:]), res1Term(p1), res1Term(p2))
+			coq = fmt.Sprintf("(UHash %s %s %s %s)", zOf(h[:]), res1Term(p1), res1Term(p2), lib.Bool(kept))
 			nontrivial = len(b) > 0
 		} else {
-			coq = fmt.Sprintf("(CHashRun %s %s %s %s)", zOf(h[:]), lib.Z(int64(incs)), res1Term(p1), res1Term(p2))
+			coq = fmt.Sprintf("(UHashRun %s %s %s %s %s)", zOf(h[:]), lib.Z(int64(incs)), res1Term(p1), res1Term(p2), lib.Bool(kept))
 			out["message"] = string(b)
 		}
 		out["point"], out["repeat"], out["increments"] = p1.kind, p2.kind, incs
@@ -440,7 +545,10 @@ func main() {
 		r := rng.Fork(fmt.Sprintf("h-%d", i))
 		run(input{Kind: "hash", Bytes: hexOf(r.Bytes(r.Intn(80)))}, em, fmt.Sprintf("hash-%d", i))
 	}
-	em.Close("a case is one Compress+Decompress round trip of a group element k*G (G1 or G2), one "+
+	em.Close("every case uses its buffers again: the compressed / input buffer is decoded three times and compared with a copy "+
+		"taken before, the decoded point is compressed again, the point given to Compress and the message given to "+
+		"G1HashToPoint are compared with their copies; "+
+		"a case is one Compress+Decompress round trip of a group element k*G (G1 or G2), one "+
 		"decompression of an arbitrary 32- / 64-byte string, or one G1HashToPoint call (run twice; kind hashrun: on a "+
 		"message ground for a long try-and-increment run, with the independently computed number of increments); "+
 		"distinct by (kind, scalar or bytes); non-trivial: round trips of non-identity elements, decompression inputs "+
